@@ -33,6 +33,7 @@ import (
 	"seehuhn.de/go/sfnt/post"
 
 	"verif/explore"
+	"verif/refcff"
 	"verif/gen"
 	"verif/refcmap"
 	"verif/run"
@@ -967,6 +968,65 @@ func c02Tiny(r *run.Run, maxLen int) {
 		})
 }
 
+// Type 2 programs over the complete operator alphabet: every one-byte operator code (incl. the reserved
+// ones) and every escaped operator, each with too few, enough and too many operands, in all ordered
+// pairs; assembled into a complete CFF by the independent assembler and handed to cff.Read.
+func c02Programs(r *run.Run) {
+	var ops [][]byte
+	for b := 0; b < 32; b++ {
+		if b == 12 || b == 28 {
+			continue
+		}
+		ops = append(ops, []byte{byte(b)})
+	}
+	for b := 0; b <= 40; b++ {
+		ops = append(ops, []byte{12, byte(b)})
+	}
+	ops = append(ops, []byte{12}, []byte{28, 1}, []byte{255, 0, 1}) // truncated escape and numbers
+	num := func(v int) []byte {
+		switch {
+		case v >= -107 && v <= 107:
+			return []byte{byte(v + 139)}
+		default:
+			return []byte{28, byte(uint16(int16(v)) >> 8), byte(v)}
+		}
+	}
+	operands := [][]int{{}, {0}, {1}, {-1}, {32}, {1, 0}, {5, 31}, {5, 32}, {-107, -107}, {0, 0, 0}, {1, 2, 3, 4}, {3, 1, 2, 1, 4}, {1, 2, 3, 4, 5, 6, 7}}
+	seed := c02TableSeed("cff.Read", "type 2 programs", nil)
+	subr := [][]byte{{11}, {139 + 1, 139 + 2, 21, 11}}
+	r.ExploreSharded(explore.Config{Name: "C02.t2-programs", Deadline: r.PartDeadline(0.3)},
+		fmt.Sprintf("charstrings 'operands op1 operands op2 [endchar]' over ALL %d operator encodings (every one-byte code incl. reserved ones, every escaped operator 12 0..40, truncated escape / number prefixes) x %d operand lists (0..7 operands incl. the storage indices 31 / 32 / -1 and subroutine numbers), with local and global subroutines present, assembled into a CFF by the independent assembler: cff.Read returns a value or an error", len(ops), len(operands)),
+		c02Procs, c02Mem,
+		func(c *explore.Ctx) {
+			a := c.Choose(len(ops), "first operator")
+			pa := c.Choose(len(operands), "operands of the first operator")
+			bsel := c.Choose(len(ops)+1, "second operator")
+			pb := 0
+			if bsel > 0 {
+				pb = c.Choose(len(operands), "operands of the second operator")
+			}
+			end := c.Bool("endchar")
+			c.Shard(explore.KeyOf(a, pa, bsel, pb))
+			var prog []byte
+			for _, v := range operands[pa] {
+				prog = append(prog, num(v)...)
+			}
+			prog = append(prog, ops[a]...)
+			if bsel > 0 {
+				for _, v := range operands[pb] {
+					prog = append(prog, num(v)...)
+				}
+				prog = append(prog, ops[bsel-1]...)
+			}
+			if end {
+				prog = append(prog, 14)
+			}
+			b := refcff.Assemble(&refcff.AsmSpec{Name: "T2", CharStrings: [][]byte{{14}, prog}, GlyphNames: []string{"A"}, GlobalSubrs: subr, Privates: []refcff.AsmPrivate{{LocalSubrs: subr}}})
+			c.Sample(func() any { return fmt.Sprintf("charstring % x", prog) })
+			c02Check(c, seed, b, func() string { return fmt.Sprintf("a CFF font whose glyph 1 is the charstring <% x>", prog) })
+		})
+}
+
 // a real-world sized font (Go Regular, 149 kB) with a thinned-out deviation alphabet
 func c02Large(r *run.Run) {
 	seed := c02TableSeed("sfnt.Read", "Go Regular", goregular.TTF)
@@ -1025,6 +1085,7 @@ func init() {
 			maxTiny, pairLen = 9, 120
 		}
 		c02FamiliesPart(r)
+		c02Programs(r)
 		c02Corruptions(r, seeds)
 		sb := 0
 		if !r.Quick() {
